@@ -233,7 +233,9 @@ async fn serve(state: Arc<Mutex<K8s>>) -> SocketAddr {
                             st.interrupted += 1;
                             ("410 Gone", json!({"kind": "Status", "apiVersion": "v1", "metadata": {}, "status": "Failure", "message": "The provided continue parameter is too old", "reason": "Expired", "code": 410}).to_string())
                         } else {
-                            let names: Vec<String> = st.objects.keys().filter(|n| cont.as_ref().is_none_or(|c| n.as_str() > c.as_str())).cloned().collect();
+                            // (a cluster-wide list is ordered by namespace, then name: the names alone are in no order)
+                            let mut names: Vec<String> = st.objects.keys().filter(|n| cont.as_ref().is_none_or(|c| list_key(n) > list_key(c))).cloned().collect();
+                            names.sort_by_key(|n| list_key(n));
                             let page: Vec<String> = match limit {
                                 Some(l) => names.iter().take(l).cloned().collect(),
                                 None => names.clone(),
@@ -287,7 +289,7 @@ fn game_server(name: &str, shape: &str) -> Value {
         "ready-lean" => {
             return json!({
                 "apiVersion": "agones.dev/v1", "kind": "GameServer",
-                "metadata": {"name": name, "namespace": "default", "uid": format!("uid-{name}"), "labels": {"mode": name}},
+                "metadata": {"name": name, "namespace": namespace_of(name), "uid": format!("uid-{name}"), "labels": {"mode": name}},
                 "spec": {"container": "mc"},
                 "status": {"address": "10.0.0.1", "ports": [{"name": "default", "port": 7001}], "state": "Ready", "counters": {"players": {"count": 5, "capacity": 10}}},
             });
@@ -306,7 +308,7 @@ fn game_server(name: &str, shape: &str) -> Value {
     };
     json!({
         "apiVersion": "agones.dev/v1", "kind": "GameServer",
-        "metadata": {"name": name, "namespace": "default", "uid": format!("uid-{name}"), "labels": {"agones.dev/fleet": "lobby", "mode": name}, "annotations": {"note": format!("anno-{shape}")}},
+        "metadata": {"name": name, "namespace": namespace_of(name), "uid": format!("uid-{name}"), "labels": {"agones.dev/fleet": "lobby", "mode": name}, "annotations": {"note": format!("anno-{shape}")}},
         "spec": {"container": "mc"},
         "status": {"address": address, "ports": ports, "state": state,
             "counters": {"players": {"count": 3, "capacity": 10}, "rooms": {"capacity": 4}},
@@ -315,6 +317,16 @@ fn game_server(name: &str, shape: &str) -> Value {
 }
 
 /// what discover() must offer for an object, or None if it must not be offered
+/// The game servers of the mock live in two namespaces: names that start with `a` in `zone-z`, all others in
+/// `zone-b` - so that a cluster-wide list (namespace, then name) does not come out sorted by name.
+fn namespace_of(name: &str) -> &'static str {
+    if name.starts_with('a') { "zone-z" } else { "zone-b" }
+}
+
+fn list_key(name: &str) -> (String, String) {
+    (namespace_of(name).to_string(), name.to_string())
+}
+
 fn reference_target(obj: &Value) -> Option<(String, SocketAddr, BTreeMap<String, String>)> {
     let st = &obj["status"];
     let state = st["state"].as_str()?;
